@@ -291,7 +291,7 @@ def range(tokens):
     elif len(tokens) == 2:
         values = []
         for i, token in enumerate(tokens):
-            if token.type == 'ident' and token.value == 'infinite':
+            if get_keyword(token) == 'infinite':
                 values.append(inf if i else -inf)
             elif token.type == 'number' and token.is_integer:
                 values.append(token.int_value)
